@@ -498,9 +498,13 @@ def check_dump_many_events(ctx, dm, chk):
     from ..symarr import NotSymbolic
 
     prog = ctx.prog
-    for label, has_prepare, allow in (("format with prepare_dump, allow_changes=True", True, True), ("format with prepare_dump, allow_changes=False", True, False), ("format without prepare_dump", False, False)):
+    # a trajectory generator may yield one object again and again, updated in place: every yield is a frame of its own
+    same_label = "format without prepare_dump, one object yielded three times"
+    for label, has_prepare, allow in (("format with prepare_dump, allow_changes=True", True, True), ("format with prepare_dump, allow_changes=False", True, False), ("format without prepare_dump", False, False), (same_label, False, False)):
         log = []
         frames = [Rec(None, tag=f"f{i}") for i in range(3)]
+        if label == same_label:
+            frames = [frames[0]] * 3
         prepared = {}
 
         def prep(a, k, log=log, prepared=prepared):
@@ -540,7 +544,11 @@ def check_dump_many_events(ctx, dm, chk):
         elif len(dumps) != 1:
             bad = f"the format's dump_many is called {len(dumps)} times"
         else:
-            for i, fr in enumerate(frames):
+            if label == same_label:
+                nchk = sum(1 for e in log if e[0] == "check")
+                if nchk != 3:
+                    bad = f"an object yielded three times (updated in place between the frames) is checked {nchk} time(s): a later state of it reaches the writer unchecked"
+            for i, fr in enumerate(frames if label != same_label else []):
                 tag = fr.fields["tag"]
                 ci = [j for j, e in enumerate(log) if e[0] == "check" and e[1] == tag]
                 pi = [j for j, e in enumerate(log) if e[0] == "prepare" and e[1] == tag]
